@@ -34,6 +34,11 @@ Theorem C31_sizes : sizes_ok = true.
 Proof. exact sizes. Qed.
 Print Assumptions C31_sizes.
 
+(* every datatype MPI gives a C type to is declared with a C type of that width, signedness and shape *)
+Theorem C31_declared_kinds : declared_kinds_ok = true.
+Proof. exact declared_kinds. Qed.
+Print Assumptions C31_declared_kinds.
+
 (* element-wise semantics, for all values *)
 Theorem C31_max_min : forall f k a ia b ib,
   elem_op f "MAX_OP" k (a, ia) (b, ib) = (Z.max a b, 0) /\ elem_op f "MIN_OP" k (a, ia) (b, ib) = (Z.min a b, 0).
